@@ -73,6 +73,12 @@ class TU:
         self.main_file = os.path.join(REPO, path)
         for n in root.get("inner", []):
             self._top(n)
+        try:
+            sys.path.insert(0, os.path.join(os.path.dirname(os.path.dirname(os.path.abspath(__file__))), "rules"))
+            import inliner
+            self.inlined = inline_new_c_helpers(self, inliner.baseline().get("c:" + path))
+        except ImportError:
+            self.inlined = []
 
     # ---- locations
     def _loc(self, n):
@@ -352,3 +358,149 @@ def cshow(e, d=0):
     if k == "cond":
         return "(%s ? %s : %s)" % (cshow(e[1], d + 1), cshow(e[2], d + 1), cshow(e[3], d + 1))
     return str(e)[:60]
+
+
+# ---------------------------------------------------------------------------------------------------------------------
+# inlining of helper functions that are new relative to the inventory the rules were written against (see rules/inliner.py)
+def _c_subst(x, env):
+    if isinstance(x, list):
+        return [_c_subst(y, env) for y in x]
+    if isinstance(x, tuple):
+        if len(x) >= 2 and x[0] == "var" and x[1] in env:
+            return env[x[1]]
+        if x and x[0] == "decl" and x[1] in env and isinstance(env[x[1]], tuple) and env[x[1]][0] == "var":
+            return ("decl", env[x[1]][1]) + tuple(_c_subst(y, env) for y in x[2:])
+        return tuple(_c_subst(y, env) for y in x)
+    return x
+
+
+def _c_assigned(stmts, out):
+    for s in stmts:
+        if isinstance(s, tuple):
+            if s and s[0] == "assign" and isinstance(s[2], tuple) and s[2][0] == "var":
+                out.add(s[2][1])
+            for y in s:
+                if isinstance(y, list):
+                    _c_assigned(y, out)
+
+
+def _c_decls(stmts, out):
+    for s in stmts:
+        if isinstance(s, tuple):
+            if s and s[0] == "decl":
+                out.add(s[1])
+            for y in s:
+                if isinstance(y, list):
+                    _c_decls(y, out)
+
+
+def _c_has_inner_return(stmts, top=True):
+    for i, s in enumerate(stmts):
+        if isinstance(s, tuple):
+            if s and s[0] == "return" and not (top and i == len(stmts) - 1):
+                return True
+            for y in s:
+                if isinstance(y, list) and _c_has_inner_return(y, False):
+                    return True
+    return False
+
+
+def _c_calls(x, name):
+    if isinstance(x, (list, tuple)):
+        if isinstance(x, tuple) and len(x) >= 2 and x[0] == "call" and x[1] == name:
+            return True
+        return any(_c_calls(y, name) for y in x)
+    return False
+
+
+class _CInliner:
+    def __init__(self, funcs, new):
+        self.funcs, self.new, self.k = funcs, new, 0
+        self.cur_names = set()
+
+    def bind(self, callee, args, line):
+        """(prologue statements, substitution env) for one call"""
+        self.k += 1
+        assigned, decls = set(), set()
+        _c_assigned(callee["body"], assigned)
+        _c_decls(callee["body"], decls)
+        env, pro = {}, []
+        for (pn, pty), a in zip(callee["params"], args):
+            if pn in assigned or not isinstance(a, tuple) or _c_calls(a, None) or any(_c_calls(a, n) for n in self.funcs):
+                nv = "%s__inl%d" % (pn, self.k)
+                pro.append(("decl", nv, pty, a, line))
+                env[pn] = ("var", nv, "var")
+            elif a[0] in ("var", "int", "enum", "member", "un", "index", "cast", "bin"):
+                env[pn] = a
+            else:
+                nv = "%s__inl%d" % (pn, self.k)
+                pro.append(("decl", nv, pty, a, line))
+                env[pn] = ("var", nv, "var")
+        for d in decls:
+            if d in self.cur_names:          # rename a helper local only when the caller already uses the name
+                env[d] = ("var", "%s__inl%d" % (d, self.k), "var")
+            else:
+                self.cur_names.add(d)
+        return pro, env
+
+    def expr(self, e):
+        """expression-valued helpers whose body is a single `return <expr>;`"""
+        if isinstance(e, tuple):
+            e = tuple(self.expr(y) if isinstance(y, (tuple, list)) else y for y in e)
+            if len(e) == 3 and e[0] == "call" and e[1] in self.new:
+                c = self.funcs[e[1]]
+                b = c["body"]
+                # `return <expr>;` possibly preceded by single-assignment local constants (`const int m = A | B; return (x & m) == m;`)
+                if b and b[-1][0] == "return" and b[-1][1] is not None and len(c["params"]) == len(e[2]) \
+                        and all(x[0] == "decl" and x[3] is not None for x in b[:-1]):
+                    assigned = set()
+                    _c_assigned(b, assigned)
+                    if not assigned and all(isinstance(a, tuple) for a in e[2]):
+                        env = {pn: a for (pn, _), a in zip(c["params"], e[2])}
+                        for d in b[:-1]:
+                            env[d[1]] = _c_subst(d[3], env)
+                        return self.expr(_c_subst(b[-1][1], env))
+            return e
+        if isinstance(e, list):
+            return self.stmts(e)
+        return e
+
+    def stmts(self, ss):
+        out = []
+        for s in ss:
+            if isinstance(s, tuple) and s and s[0] == "expr" and isinstance(s[1], tuple) and s[1][0] == "call" and s[1][1] in self.new:
+                c = self.funcs[s[1][1]]
+                if len(c["params"]) == len(s[1][2]) and not _c_has_inner_return(c["body"]):
+                    pro, env = self.bind(c, [self.expr(a) for a in s[1][2]], s[-1])
+                    body = [x for x in c["body"] if not (x[0] == "return" and (len(x) < 2 or x[1] is None or True))]
+                    out.extend(pro)
+                    out.extend(self.stmts(_c_subst(body, env)))
+                    continue
+            if isinstance(s, tuple):
+                out.append(tuple(self.expr(y) if isinstance(y, tuple) else (self.stmts(y) if isinstance(y, list) else y) for y in s))
+            else:
+                out.append(s)
+        return out
+
+
+def inline_new_c_helpers(tu, baseline_names):
+    """inline (statement-level / single-return expression-level) every function of `tu` that is not in `baseline_names`"""
+    if not baseline_names:
+        return []
+    new = {n for n, f in tu.funcs.items() if n not in baseline_names and f.get("body") is not None and not n.startswith("_") and f.get("storage") == "static"
+           and not _c_calls(f["body"], n) and str(f.get("file") or "").endswith(tu.path.split("/")[-1].replace(".c", "")) is not None}
+    new = {n for n in new if (tu.funcs[n].get("file") or "").find("/usr/") < 0 and (tu.funcs[n].get("file") or "").find("lib/clang") < 0}
+    if not new:
+        return []
+    inl = _CInliner(tu.funcs, new)
+    for _ in range(3):
+        for n, f in tu.funcs.items():
+            if f.get("body") is not None:
+                names = set(pn for pn, _ in f["params"])
+                _c_decls(f["body"], names)
+                inl.cur_names = names
+                f["body"] = inl.stmts(f["body"])
+    gone = [n for n in new if not any(_c_calls(f.get("body") or [], n) for m, f in tu.funcs.items() if m != n)]
+    for n in gone:
+        del tu.funcs[n]
+    return sorted(new)
